@@ -41,7 +41,10 @@ NONE = (0, -1)
 
 def frac(r):
     """spec rational <<n, d>> -> Fraction, None for the NaN / None sentinels"""
-    if r is None or r == NAN or r == NONE or r == "-":
+    if r is None or r == "-":
+        return None
+    r = tuple(r)
+    if r == NAN or r == NONE:
         return None
     return Fraction(r[0], r[1])
 
